@@ -22,3 +22,4 @@ import SpoxModel.Props.C03
 #print axioms C03.pinned_statements_counterexample
 #print axioms C03.arguments_of_main_graph
 #print axioms C03.recursion_only_along_nesting
+#print axioms C03.missing_input_preset_name_counterexample
